@@ -7,6 +7,8 @@ import Rl.Keys
 import Rl.Editor
 import Rl.Lemmas.Keys
 import Rl.Lemmas.KeysProgress
+import Rl.Lemmas.EditorSafe
+import Rl.Lemmas.EditorFrame
 open Rl
 
 /-- A successful read of one byte consumes exactly one byte of the input (buffer, kernel queue or
@@ -67,12 +69,183 @@ theorem C17_decoder_io_only_at_end (i : Input) (sea : Bool) (h : 36 ≤ i.size) 
   omega
 
 /-- Full statement (editor): from the initial state no key sequence makes the editor model reach
-    a panic outcome. False on the pinned tree before the D5 repair (`y^` slices backwards). -/
+    a panic outcome. False on the pinned tree before the D5 repair (`y^` slices backwards).
+    Proved so far: the per-command form `C17_execute_safe` below for the commands of `C17_covered`
+    (from a state satisfying `EdWF` — cursors on character boundaries, history index in range, kill
+    ring bounds invariant `RingOK` — the step neither panics nor breaks `EdWF`), for helpers that do
+    not panic.  Not covered yet: `YankPop` (needs the cross-step fact "the cursor has not moved since
+    the yank": `end - yank_size`), `Undo` (needs the log invariant of C05), `ReplaceChar`,
+    `Overwrite`, `Indent`, `Dedent`, the history commands (`PreviousHistory` …
+    `HistorySearchForward`), and the sub-loops. -/
 def C17_editor_no_panic_statement : Prop :=
   ∀ (S : Segmenter) (U : UData) (cfg : EdCfg) (left right : Text) (inp : Input),
-    (∀ t, cfg.validator t ≠ .panic) →
+    (∀ t, cfg.validator t ≠ .panic) → cfg.hinterPanicAt = none →
     (∀ t p, (cfg.completer t p).1 ≤ p) →
     (readline S U cfg (KillRing.new 60) left right inp).1 ≠ .panic
+
+/-- the commands for which `execute` is proved panic-free and invariant-preserving -/
+def C17_covered : Cmd → Bool
+  | .move _ | .selfInsert _ _ | .newline | .insert _ _ | .completeHint
+  | .transposeChars | .capitalizeWord | .downcaseWord | .upcaseWord | .transposeWords _
+  | .clearScreen | .repaint | .interrupt | .endOfFile
+  | .kill _ | .replace _ _ | .yank _ _ | .viYankTo _
+  | .acceptLine | .acceptOrInsertLine _
+  | .abort | .complete | .completeBackward | .noop | .unknown | .suspend | .quotedInsert
+  | .reverseSearchHistory | .forwardSearchHistory => true
+  | _ => false
+
+/-- **Per-command no-panic**: for helpers that do not panic (validator verdict never `panic`,
+    `hinterPanicAt = none`; a panicking helper is C16's business), from a state satisfying `EdWF` every
+    covered command returns or exits without the panic outcome, and `EdWF` holds again afterwards. -/
+theorem C17_execute_safe (S : Segmenter) (U : UData) (cfg : EdCfg) (hv : ∀ t, cfg.validator t ≠ .panic)
+    (hnp : cfg.hinterPanicAt = none)
+    (cmd : Cmd) (hc : C17_covered cmd = true) (s : Ed) (h : EdWF cfg s) :
+    wp (execute S U cfg cmd) (fun _ s' => EdWF cfg s') (fun o _ => o ≠ .panic) s := by
+  cases cmd <;> simp only [C17_covered, Bool.false_eq_true] at hc
+  case move m =>
+    cases m <;> (unfold execute; simp only [wp_bind, wp_pure, wp_getPromptCol])
+    case beginningOfLine => exact safe_editMove S U cfg (lmsafe_moveHome S U) h
+    case endOfLine => exact safe_editMove S U cfg (lmsafe_moveEnd S U) h
+    case backwardChar n => exact safe_editMove S U cfg (lmsafe_moveBackward S U n) h
+    case forwardChar n => exact safe_editMove S U cfg (lmsafe_moveForward S U n) h
+    case backwardWord n w => exact safe_editMove S U cfg (lmsafe_moveToPrevWord S U w n) h
+    case forwardWord n a w => exact safe_editMove S U cfg (lmsafe_moveToNextWord S U a w n) h
+    case viCharSearch n cs => exact safe_editMove S U cfg (lmsafe_moveTo S U cs n) h
+    case lineUp n => exact safe_editMove S U cfg (lmsafe_moveToLineUp S U n _) h
+    case lineDown n => exact safe_editMove S U cfg (lmsafe_moveToLineDown S U n _) h
+    case beginningOfBuffer => exact safe_editMove S U cfg (lmsafe_moveBufferStart S U) h
+    case endOfBuffer => exact safe_editMove S U cfg (lmsafe_moveBufferEnd S U) h
+    case viFirstPrint =>
+      refine wp_mono (safe_editMove S U cfg (lmsafe_moveHome S U) h) ?_ (fun _ _ h => h)
+      intro _ s1 h1
+      simp only [wp_getLine]
+      split
+      · split
+        · simp only [wp_bind, wp_pure]
+          exact safe_editMove S U cfg (lmsafe_moveToNextWord S U _ _ _) h1
+        · exact h1
+      · exact h1
+    all_goals exact h
+  case selfInsert n c =>
+    unfold execute; simp only [wp_bind, wp_pure]
+    exact safe_editInsert S U cfg hnp c n h
+  case newline =>
+    rw [show execute S U cfg .newline = withPreAccept S U cfg (do editInsert S U cfg '\n' 1; pure .proceed) by
+      unfold execute withPreAccept; simp only []]
+    refine safe_withPreAccept S U cfg h fun s1 h1 => ?_
+    unfold Safe; simp only [wp_bind, wp_pure]
+    exact safe_editInsert S U cfg hnp '\n' 1 h1
+  case insert n t =>
+    unfold execute; simp only [wp_bind, wp_pure]
+    exact safe_editYank S U cfg t .before n hnp h
+  case completeHint =>
+    unfold execute; simp only [wp_bind, wp_pure]
+    exact safe_completeHintLine S U cfg hnp h
+  case transposeChars =>
+    unfold execute; simp only [wp_bind, wp_pure]
+    exact safe_grouped S U cfg (lmsafe_transposeChars S U) hnp h
+  case capitalizeWord =>
+    unfold execute; simp only [wp_bind, wp_pure]
+    exact safe_grouped S U cfg (lmsafe_editWord S U _) hnp h
+  case downcaseWord =>
+    unfold execute; simp only [wp_bind, wp_pure]
+    exact safe_grouped S U cfg (lmsafe_editWord S U _) hnp h
+  case upcaseWord =>
+    unfold execute; simp only [wp_bind, wp_pure]
+    exact safe_grouped S U cfg (lmsafe_editWord S U _) hnp h
+  case transposeWords n =>
+    unfold execute; simp only [wp_bind, wp_pure]
+    exact safe_grouped S U cfg (lmsafe_transposeWords S U n) hnp h
+  case clearScreen =>
+    unfold execute; simp only [wp_bind, wp_pure, logRender, wp_modify]
+    exact safe_refreshLine S U cfg hnp (h.of_core rfl)
+  case repaint =>
+    unfold execute; simp only [wp_bind, wp_pure]
+    exact safe_refreshLine S U cfg hnp h
+  case interrupt =>
+    unfold execute; simp only [wp_bind, wp_pure, logRender, wp_modify, wp_exit]
+    intro hh; cases hh
+  case endOfFile =>
+    rw [show execute S U cfg .endOfFile = withPreAccept S U cfg (do
+          let empty ← lineEmpty
+          if empty then EM.exit .eof else if cfg.vi then pure .submit else pure .proceed) by
+      unfold execute withPreAccept; simp only []]
+    refine safe_withPreAccept S U cfg h fun s1 h1 => ?_
+    unfold Safe; simp only [wp_bind, wp_lineEmpty]
+    split
+    · simp only [wp_exit]; intro hh; cases hh
+    · split <;> exact h1
+  case acceptLine =>
+    rw [show execute S U cfg .acceptLine = withPreAccept S U cfg (do let _ ← validate S U cfg; pure .submit) by
+      unfold execute withPreAccept; simp only []]
+    refine safe_withPreAccept S U cfg h fun s1 h1 => ?_
+    unfold Safe; simp only [wp_bind, wp_pure]
+    exact safe_validate S U cfg hv h1
+  case kill mvt =>
+    unfold execute; simp only [wp_bind, wp_pure]
+    exact safe_editKill S U cfg mvt hnp h
+  case replace mvt text =>
+    unfold execute; simp only [wp_bind, wp_pure]
+    refine wp_mono (safe_editKill S U cfg mvt hnp h) ?_ (fun _ _ h => h)
+    intro _ s1 h1
+    cases text with
+    | none => exact h1
+    | some t =>
+      simp only [wp_bind, wp_pure]
+      exact safe_editInsertText S U cfg t hnp h1
+  case yank n a =>
+    unfold execute; simp only [wp_bind, wp_pure]
+    refine wp_ringYank_safe cfg h fun t s1 h1 => ?_
+    cases t with
+    | none => exact h1
+    | some t =>
+      simp only [wp_bind, wp_pure]
+      exact safe_editYank S U cfg t a n hnp h1
+  case viYankTo mvt =>
+    unfold execute; simp only [wp_bind, wp_pure, wp_getLine]
+    obtain ⟨r, hr⟩ := C03_copy_total S U mvt s.line h.line
+    rw [hr]
+    cases r with
+    | none => exact h
+    | some t =>
+      show wp (ringKill t >>= fun _ => pure Status.proceed) _ _ s
+      simp only [wp_bind, wp_pure]
+      exact safe_ringKill cfg t h
+  case acceptOrInsertLine aim =>
+    rw [execute_acceptOrInsertLine]
+    exact safe_withPreAccept S U cfg h fun s1 h1 => safe_execAccept S U cfg hv hnp aim h1
+  all_goals (unfold execute; simp only [wp_bind, wp_pure]; exact h)
+
+/-- the initial state of a read satisfies the invariant -/
+theorem C17_init_wf (cfg : EdCfg) (ring : KillRing) (input : Input) (hr : RingOK ring) :
+    EdWF cfg (initEd cfg ring input) :=
+  ⟨isBoundary_zero _, isBoundary_zero _, Nat.le_refl _, hr.reset⟩
+
+/-- the ring a fresh editor starts with satisfies the ring invariant -/
+theorem C17_new_ring_ok (n : Nat) : RingOK (KillRing.new n) := RingOK.new n
+
+/-- resetting the ring at the start of a non-kill command (main loop) keeps the invariant -/
+theorem C17_ring_reset_keeps_wf (cfg : EdCfg) (s : Ed) (h : EdWF cfg s) :
+    EdWF cfg { s with ring := s.ring.reset } :=
+  ⟨h.line, h.saved, h.idx, RingOK.reset h.ring⟩
+
+/-- reading and decoding the next command (`next_cmd`, all three keymaps, numeric arguments, custom
+    bindings, operator + motion) preserves the invariant: it never touches the line, the saved line
+    or the history index -/
+theorem C17_nextCmd_keeps_wf (S : Segmenter) (U : UData) (cfg : EdCfg) (fuel : Nat) (sea iep : Bool)
+    (s s' : Ed) (c : Cmd) (h : EdWF cfg s) (hr : nextCmd S U cfg fuel sea iep s = .ok (c, s')) : EdWF cfg s' :=
+  h.of_coreNC ((keeps_nextCmd S U cfg fuel sea iep).ok hr)
+
+/-- a panic source that is really reachable: a completer that reports a start offset beyond the
+    cursor makes list-mode completion underflow (`pos - start`, lib.rs) — excluded by hypothesis in
+    the full statement -/
+theorem C17_completer_start_beyond_cursor_panics (S : Segmenter) (U : UData) (fuel : Nat) (s : Ed)
+    (hl : s.line = { buf := [], pos := 0, cap := 8, canGrow := true }) :
+    ∃ s', completeLine S U { vi := false, listCompletion := true, completer := fun _ _ => (1, [['a']]) } fuel s
+      = .error (.panic, s') := by
+  unfold completeLine
+  simp only [EM.bind_apply, getLine, hl, lcpChars]
+  exact ⟨_, rfl⟩
 
 /-- non-vacuity: a concrete multi-byte escape sequence decodes to Ctrl-Right and consumes 6 bytes -/
 example :
